@@ -1712,6 +1712,13 @@ func (db *DB) Dump(w io.Writer, tableNames ...string) error {
 	defer conn.Close()
 	ctx := context.Background()
 
+	// Every read below must see the same committed state, so run them all
+	// inside one read transaction on this connection.
+	if _, err := conn.ExecContext(ctx, "BEGIN"); err != nil {
+		return err
+	}
+	defer conn.ExecContext(ctx, "ROLLBACK")
+
 	// Convenience function to convert string query to protobuf.
 	commReq := func(query string) *command.Request {
 		return &command.Request{
